@@ -35,6 +35,9 @@ pub enum IoOp {
 pub struct IoState {
     pub files: BTreeMap<String, Vec<u8>>,
     pub journal: Vec<IoOp>,
+    /// every write (with its content) and removal since the start, never drained: the storage history that
+    /// crash images are cut from (C12)
+    pub history: Vec<(bool, String, Vec<u8>)>,
     /// fail `fetch_block_from_peer` synchronously when set
     pub fetch_fails: bool,
 }
@@ -59,6 +62,15 @@ impl SimIo {
     }
     pub fn files(&self) -> BTreeMap<String, Vec<u8>> {
         self.st.lock().unwrap().files.clone()
+    }
+    pub fn history(&self) -> Vec<(bool, String, Vec<u8>)> {
+        self.st.lock().unwrap().history.clone()
+    }
+    /// a fresh store holding exactly `files`
+    pub fn with_files(files: BTreeMap<String, Vec<u8>>) -> Self {
+        let io = SimIo::new();
+        io.st.lock().unwrap().files = files;
+        io
     }
 }
 
@@ -123,6 +135,7 @@ impl InterfaceIO for SimIo {
             len: value.len(),
         });
         st.files.insert(key.to_string(), value.to_vec());
+        st.history.push((true, key.to_string(), value.to_vec()));
         Ok(())
     }
     async fn append_value(&mut self, key: &str, value: &[u8]) -> Result<(), Error> {
@@ -163,6 +176,7 @@ impl InterfaceIO for SimIo {
             key: key.to_string(),
         });
         st.files.remove(key);
+        st.history.push((false, key.to_string(), vec![]));
         Ok(())
     }
     fn get_block_dir(&self) -> String {
